@@ -234,7 +234,13 @@ func recoveryErrors(c *Ctx, rule string) {
 		p.Func("storage/rocks", "readChunk"),
 	}
 	errorDiscipline(c, rule, fns)
-	// the stream reader hands the stream's own error on (a broken transfer must not look like a clean end)
+	streamEndOnlyOnEOF(c, rule, p.MustMethod("storage/rocks", "RocksDBStore", "LoadSnapshot"))
+	streamReaderForwardsError(c, rule)
+}
+
+// streamReaderForwardsError: the stream reader hands the stream's own error on (a broken transfer must not look like a clean end).
+func streamReaderForwardsError(c *Ctx, rule string) {
+	p := c.P
 	rd := p.MustMethod(pkgConsensus, "chunkReader", "Read")
 	okAll := true
 	n := 0
@@ -268,6 +274,69 @@ func recoveryErrors(c *Ctx, rule string) {
 	} else if okAll {
 		c.Ok(rule, funcName(rd)+":recv-error", rd.Pos(), "Recv's error is returned unchanged")
 	}
+}
+
+// streamEndOnlyOnEOF: a loop that loads chunks until the stream ends may report success only
+// after the reader said io.EOF. Any other way out of the loop to a nil-error return (a nil chunk,
+// a short read, a swallowed error) lets a transfer that broke half-way pass for a complete one.
+func streamEndOnlyOnEOF(c *Ctx, rule string, fn *ssa.Function) {
+	p := c.P
+	name := funcName(fn) + ":success-only-on-EOF"
+	rg := p.RegionOf(fn, 2)
+	var reads []regionInstr
+	for _, ri := range rg.Calls(func(k *ssa.CallCommon) bool {
+		f := k.StaticCallee()
+		if f == nil || f.Pkg != fn.Pkg || f.Signature.Results().Len() != 2 || !isErrorType(f.Signature.Results().At(1).Type()) || !isByteSlice(f.Signature.Results().At(0).Type()) {
+			return false
+		}
+		// a chunk reader: takes an io.Reader
+		for i := 0; i < f.Signature.Params().Len(); i++ {
+			if strings.HasPrefix(typeStr(f.Signature.Params().At(i).Type()), "io.Read") {
+				return true
+			}
+		}
+		return false
+	}) {
+		if ri.site.owner == fn && inCycle(ri.in.Block()) {
+			reads = append(reads, ri)
+		}
+	}
+	if len(reads) != 1 {
+		c.Fail(rule, name, fn.Pos(), fmt.Sprintf("%d chunk-reading call sites in the loading loop (one expected)", len(reads)))
+		return
+	}
+	read := reads[0].in
+	isEOFEdge := func(b *ssa.BasicBlock, succ int) bool {
+		ifi := blockIf(b)
+		if ifi == nil {
+			return false
+		}
+		cd := p.condOf(ifi.Cond, succ == 0)
+		if cd.Atom.Op != "EQ" || !cd.Pol {
+			return false
+		}
+		for i := 0; i < 2; i++ {
+			x, y := cd.Atom.Args[i], cd.Atom.Args[1-i]
+			if x.Op == "global" && strings.HasSuffix(x.Name, "io.EOF") && y.HasLocal(func(t *Term) bool { return t.V == read.(ssa.Value) }) {
+				return true
+			}
+		}
+		return false
+	}
+	notSuccess := func(in ssa.Instruction) bool {
+		ret, ok := in.(*ssa.Return)
+		if !ok {
+			return false
+		}
+		k, isC := RetVal(ret, len(ret.Results)-1).(*ssa.Const)
+		return !(isC && k.Value == nil)
+	}
+	esc := p.EscapesWithout(fn, func(ssa.Instruction) bool { return false }, mustOpts{start: read, skipEdge: isEOFEdge, stopAt: notSuccess})
+	pos := fn.Pos()
+	if esc != nil {
+		pos = esc.Pos()
+	}
+	c.Check(esc == nil, rule, name, pos, "the load reports success only after the chunk reader returned io.EOF", "the loading loop can end with a nil error without the reader having reported io.EOF (for example on a nil chunk): a transfer interrupted by any other error is accepted as complete and the follower is left with a prefix of the state")
 }
 
 func rebuildOnOpen(c *Ctx, rule string) {
